@@ -112,6 +112,11 @@ fn b32(orig: i32) -> Vec<i32> {
         i32::MAX - 1, i32::MAX, i32::MIN, i32::MIN + 1, -(1 << 30), -8,
         orig.wrapping_add(1), orig.wrapping_sub(1), orig.wrapping_add(2), orig.wrapping_sub(2), orig.wrapping_mul(2), orig / 2,
     ];
+    // every power of two and its neighbours, both signs
+    for k in 0..31 {
+        let p = 1i32 << k;
+        v.extend([p - 1, p, p + 1, -p, -p - 1, -p + 1]);
+    }
     v.sort_unstable();
     v.dedup();
     v.retain(|x| *x != orig);
@@ -167,13 +172,14 @@ pub fn inputs(tier: Tier, bs: &[Base]) -> Vec<Input> {
                     v.push(Input { base: bi, on_shp, m: Mutation::BitFlip { byte, bit } });
                 }
             }
-            // 5: interacting pairs (thorough)
-            if tier == Tier::Thorough {
+            // 5: interacting pairs (quick: a 5x5 value grid; thorough: 9x9)
+            {
                 for (ai, fa) in fields.iter().enumerate() {
                     for (bj, fb) in fields.iter().enumerate().skip(ai + 1) {
                         if interacting(fa.class, fb.class) {
-                            for va in PAIR_VALUES {
-                                for vb in PAIR_VALUES {
+                            let vals: &[i32] = if tier == Tier::Thorough { &PAIR_VALUES } else { &PAIR_VALUES[..5] };
+                            for va in vals.iter().copied() {
+                                for vb in vals.iter().copied() {
                                     v.push(Input { base: bi, on_shp, m: Mutation::Pair { a: ai, va, b: bj, vb } });
                                 }
                             }
